@@ -43,6 +43,9 @@ type Engine struct {
 	immPrefixes []string
 	immProblems []string
 	immChecked  bool
+	typeInvs    map[string]*typeInvInfo
+	tiProblems  []string
+	hasWait     map[*ssa.Function]bool
 	immAllowed  map[*ssa.Function]bool
 	reachCache  map[string]bool
 	cbFree      map[*types.Package]bool
@@ -97,6 +100,7 @@ func loadEngine(repo string) (*Engine, error) {
 	e.initUFuncs()
 	e.initLib()
 	e.initImmutables()
+	e.initTypeInvs()
 	return e, nil
 }
 
@@ -537,10 +541,35 @@ func pkgOf(fn *ssa.Function) *ssa.Package {
 	return nil
 }
 
+func (c *FnCtx) checkIfacePosts(s *State, res []Val) {
+	for _, ic := range c.eng.ifaceContractsFor(c.fn) {
+		vars := map[string]Val{}
+		if len(c.fn.Params) > 0 {
+			rv := c.entryVals[c.fn.Params[0]]
+			if kindOf(rv.T) == kPtr && rv.S != "" {
+				vars["recv"] = Val{T: rv.T, S: app("mkI", fmt.Sprint(c.eng.tagOf(rv.T)), app("pRef", rv.S))}
+			}
+		}
+		for i, n := range ic.Params {
+			if i+1 < len(c.fn.Params) {
+				vars[n] = c.entryVals[c.fn.Params[i+1]]
+			}
+		}
+		bindResultVars(vars, res, nil, c.fn.Signature)
+		for i, en := range ic.Ensures {
+			x := &EvalCtx{s: s, old: c.entry, vars: vars, pkg: c.eng.pkgByName[strings.SplitN(ic.Key, ".", 2)[0]]}
+			v := x.eval(en.Expr)
+			c.specErrors(x, en.Where)
+			s.obligeNamed(fmt.Sprintf("%s/post:%s#%d", c.name, ic.Key, i+1), "post", v.S, "interface contract "+ic.Key+": "+en.Src, true)
+		}
+	}
+}
+
 func (s *State) checkPost(res []Val) {
 	c := s.c
 	c.paths++
 	if c.con == nil {
+		c.checkIfacePosts(s, res)
 		return
 	}
 	vars := c.paramVars(s)
@@ -549,6 +578,7 @@ func (s *State) checkPost(res []Val) {
 	if p := pkgOf(c.fn); p != nil {
 		pkgName = p.Pkg.Name()
 	}
+	c.checkIfacePosts(s, res)
 	for i, en := range c.con.Ensures {
 		parts := unfoldConj(en.Expr, c.eng.contracts.Preds, pkgName, 0)
 		for j, part := range parts {
@@ -912,4 +942,165 @@ func (e *Engine) scanCalls(rule CWRule) []string {
 	}
 	sort.Strings(bad)
 	return bad
+}
+
+// ---------- type invariants of immutable-after-construction objects ----------
+// `//@ typeinv T inv` in package p: objects of struct type T are written only by their constructors (the
+// functions that allocate a T, and the closures nested in them); every constructor establishes inv before it
+// hands the object out (an ordinary `ensures` of its contract). Then inv(x) may be assumed for every non-nil
+// *T that is read from memory, received as a parameter or returned by a call. The first condition is checked
+// over the whole module on every run.
+
+type typeInvInfo struct {
+	pred  string
+	named *types.Named
+	ctors map[*ssa.Function]bool
+	pkg   string
+}
+
+func topFn(fn *ssa.Function) *ssa.Function {
+	for fn.Parent() != nil {
+		fn = fn.Parent()
+	}
+	return fn
+}
+
+func (e *Engine) initTypeInvs() {
+	e.typeInvs = map[string]*typeInvInfo{}
+	e.hasWait = map[*ssa.Function]bool{}
+	for _, ti := range e.contracts.TypeInvs {
+		sp := e.pkgByName[ti.Pkg]
+		if sp == nil {
+			e.tiProblems = append(e.tiProblems, ti.Where+": unknown package")
+			continue
+		}
+		tm, ok := sp.Members[ti.Type].(*ssa.Type)
+		if !ok {
+			e.tiProblems = append(e.tiProblems, ti.Where+": no type "+ti.Type)
+			continue
+		}
+		n, _ := tm.Type().(*types.Named)
+		if n == nil {
+			continue
+		}
+		if _, ok := e.contracts.Preds[ti.Pred]; !ok {
+			e.tiProblems = append(e.tiProblems, ti.Where+": no predicate "+ti.Pred)
+			continue
+		}
+		e.typeInvs[typeKey(n)] = &typeInvInfo{pred: ti.Pred, named: n, ctors: map[*ssa.Function]bool{}, pkg: ti.Pkg}
+	}
+	for fn := range e.allFns {
+		if !e.inRepo(fn) {
+			continue
+		}
+		for _, b := range fn.Blocks {
+			for _, in := range b.Instrs {
+				switch x := in.(type) {
+				case *ssa.Alloc:
+					if pt := derefType(x.Type()); pt != nil {
+						if info, ok := e.typeInvs[typeKey(pt)]; ok {
+							info.ctors[topFn(fn)] = true
+						}
+					}
+				case ssa.CallInstruction:
+					if c := x.Common().StaticCallee(); c != nil && c.String() == "(*sync.WaitGroup).Wait" {
+						e.hasWait[fn] = true
+					}
+				}
+			}
+		}
+	}
+	if len(e.typeInvs) == 0 {
+		return
+	}
+	for fn := range e.allFns {
+		if !e.inRepo(fn) {
+			continue
+		}
+		for _, b := range fn.Blocks {
+			for _, in := range b.Instrs {
+				st, ok := in.(*ssa.Store)
+				if !ok {
+					continue
+				}
+				var pt types.Type
+				if fa, ok := st.Addr.(*ssa.FieldAddr); ok {
+					pt = derefType(fa.X.Type())
+				} else {
+					pt = derefType(st.Addr.Type())
+				}
+				if pt == nil {
+					continue
+				}
+				if info, ok := e.typeInvs[typeKey(pt)]; ok && !info.ctors[topFn(fn)] {
+					e.tiProblems = append(e.tiProblems, fmt.Sprintf("%s writes an object of type %s outside its constructors at %s", e.fnKey(fn), info.named.Obj().Name(), e.posOf(in)))
+				}
+			}
+		}
+	}
+	sort.Strings(e.tiProblems)
+}
+
+// typeInvFact: the invariant of the object a non-nil pointer term refers to (or "" when none applies).
+func (s *State) typeInvFact(t types.Type, term string) string {
+	pt := derefType(t)
+	if pt == nil {
+		return ""
+	}
+	info, ok := s.c.eng.typeInvs[typeKey(pt)]
+	if !ok || info.ctors[topFn(s.c.fn)] {
+		return ""
+	}
+	p := s.c.eng.contracts.Preds[info.pred]
+	if p == nil || len(p.Params) != 1 {
+		return ""
+	}
+	x := &EvalCtx{s: s, vars: map[string]Val{p.Params[0]: {T: t, S: term}}, pkg: s.c.eng.pkgByName[info.pkg]}
+	v := x.eval(p.Body)
+	s.c.specErrors(x, "typeinv "+info.pred)
+	return implies(not(eq(term, "0")), v.S)
+}
+
+func (e *Engine) ifaceInRepo(t types.Type) bool {
+	n, ok := t.(*types.Named)
+	if !ok || n.Obj().Pkg() == nil {
+		return false
+	}
+	pp := n.Obj().Pkg().Path()
+	return pp == "servitor" || strings.HasPrefix(pp, "servitor/")
+}
+
+// ifaceContractsFor: the interface-method contracts a concrete method must satisfy (behavioural subtyping).
+func (e *Engine) ifaceContractsFor(fn *ssa.Function) []*Contract {
+	recv := fn.Signature.Recv()
+	if recv == nil || !e.inRepo(fn) {
+		return nil
+	}
+	var out []*Contract
+	for key, con := range e.contracts.Funcs {
+		if con.Kind != "iface" {
+			continue
+		}
+		parts := strings.Split(key, ".")
+		if len(parts) != 3 || parts[2] != fn.Name() {
+			continue
+		}
+		sp := e.pkgByName[parts[0]]
+		if sp == nil {
+			continue
+		}
+		tm, ok := sp.Members[parts[1]].(*ssa.Type)
+		if !ok {
+			continue
+		}
+		it, ok := tm.Type().Underlying().(*types.Interface)
+		if !ok {
+			continue
+		}
+		if types.Implements(recv.Type(), it) {
+			out = append(out, con)
+		}
+	}
+	sort.Slice(out, func(i, j int) bool { return out[i].Key < out[j].Key })
+	return out
 }
